@@ -378,6 +378,16 @@ impl<A: IntoV, B: IntoV, C: IntoV, D: IntoV> IntoV for (A, B, C, D) {
         V::T(vec![self.0.into_v(), self.1.into_v(), self.2.into_v(), self.3.into_v()])
     }
 }
+impl<A: IntoV, B: IntoV, C: IntoV, D: IntoV, E: IntoV> IntoV for (A, B, C, D, E) {
+    fn into_v(self) -> V {
+        V::T(vec![self.0.into_v(), self.1.into_v(), self.2.into_v(), self.3.into_v(), self.4.into_v()])
+    }
+}
+impl<A: IntoV, B: IntoV, C: IntoV, D: IntoV, E: IntoV, F: IntoV> IntoV for (A, B, C, D, E, F) {
+    fn into_v(self) -> V {
+        V::T(vec![self.0.into_v(), self.1.into_v(), self.2.into_v(), self.3.into_v(), self.4.into_v(), self.5.into_v()])
+    }
+}
 impl<T: IntoV> IntoV for ruint::ToUintError<T> {
     fn into_v(self) -> V {
         match self {
